@@ -23,6 +23,12 @@ fn csv_value(v: &str) -> MVal {
 		return MVal::Bool(false);
 	}
 	let digits = |s: &str| !s.is_empty() && s.bytes().all(|b| b.is_ascii_digit());
+	// zero-padded integers ("007", "-042") are identifiers (municipality keys, postcodes), not numbers: as numbers
+	// they would join with other ids ("7") and lose their text
+	let int_body = v.strip_prefix('-').unwrap_or(v);
+	if digits(int_body) && int_body.len() > 1 && int_body.starts_with('0') {
+		return MVal::Str(v.to_string());
+	}
 	if digits(v) {
 		if let Ok(u) = v.parse::<u64>() {
 			return MVal::Int(u as i128);
@@ -74,6 +80,7 @@ pub fn tables() -> Vec<Table> {
 		Table { name: "numeric id 7, two columns, one equal to an existing key", header: vec!["data_id", "k", "ratio", "flag"], rows: vec![vec!["7", "new", "0.5", "true"], vec!["x3", "z", "1.25", "false"]] },
 		Table { name: "no matching ids", header: vec!["data_id", "pop"], rows: vec![vec!["nobody", "1"]] },
 		Table { name: "id column only", header: vec!["data_id"], rows: vec![vec!["x1"], vec!["x2"], vec!["7"]] },
+		Table { name: "zero-padded ids next to the plain number", header: vec!["data_id", "town"], rows: vec![vec!["007", "seven padded"], vec!["042", "forty-two padded"], vec!["9", "nine"], vec!["-08", "minus eight padded"]] },
 		Table { name: "numeric ids written as integers and as decimals", header: vec!["data_id", "label"], rows: vec![vec!["2", "two"], vec!["5.0", "five"], vec!["3.5", "three and a half"], vec!["4.0", "four"], vec!["-6", "minus six"], vec!["7", "seven"]] },
 	]
 }
@@ -114,6 +121,9 @@ pub fn reference(layers: &[DLayer], layer_name: &str, id_field: &str, table: &Ta
 						}
 					}
 				}
+			} else if o.remove {
+				// a feature without the id field matches no row
+				continue;
 			}
 			nl.features.push(nf);
 		}
@@ -199,6 +209,15 @@ pub fn catalogue() -> Vec<(String, Vec<MLayer>)> {
 			(0..8u32).map(|i| feat(Some(20 + i as u64), &[0, i], 1, point(i as i32, 2))).collect(),
 		)],
 	));
+	v.push((
+		"layer a, zero-padded string ids next to the plain numbers".into(),
+		vec![layer(
+			"a",
+			&["id", "k"],
+			vec![s("007"), s("042"), s("7"), u(7), u(42), s("9"), u(9), s("-08"), (Enc::SInt64, MVal::Int(-8)), s("kept")],
+			(0..9u32).map(|i| feat(Some(70 + i as u64), &[0, i, 1, 9], 1, point(i as i32, 3))).chain([feat(Some(80), &[1, 9], 1, point(9, 3))]).collect(),
+		)],
+	));
 	// exhaustively: all key tables of length <= 3 over {id, k}, every feature referencing each key position once
 	let names = ["id", "k"];
 	for len in 1..=3usize {
@@ -214,7 +233,7 @@ pub fn catalogue() -> Vec<(String, Vec<MLayer>)> {
 pub fn run(ctx: Arc<Ctx>) {
 	ctx.rule(
 		"catalogue: C10's 12 tiles + tiles around layer 'a' with an id key (ids as string / int64 / sint64 / uint64 / float / double with integral and fractional values, float vs double, unknown geometry type, duplicate keys/values, unused entries, untouched second layer) + all key tables of length <= 3 over {id,k}; \
-		 x 5 data tables (string ids, numeric ids as integers and decimals) x 2^3 options (replace, remove_non_matching, include_id) x layer name {a, absent} x source compression; reference join on the independently decoded form; plus decode -> encode of every catalogue tile through the repository's VectorTile; plus the bounded-exhaustive small-layer family (5 key tables x 4 value tables x feature lists with every tag list of <= 2 pairs; all 409) joined on key k under all 16 (options, layer name) configurations. \
+		 x 6 data tables (string ids, numeric ids as integers and decimals, zero-padded ids) x 2^3 options (replace, remove_non_matching, include_id) x layer name {a, absent} x source compression; reference join on the independently decoded form; plus decode -> encode of every catalogue tile through the repository's VectorTile; plus the bounded-exhaustive small-layer family (5 key tables x 4 value tables x feature lists with every tag list of <= 2 pairs; all 409) joined on key k under all 16 (options, layer name) configurations. \
 		 non-trivial = (tile, table, options) where the reference join changes at least one feature",
 	);
 	let cat = catalogue();
